@@ -8,6 +8,8 @@ Line-protocol operations of the Jinja engine model (C17).
   jinja_access   allow, queries, impl                 →  cached model decisions, documented rule
   jinja_join     relative, template, parent           →  joined template name
 Template names and paths travel as strings; they are split at "/" here (Python's `str.split`).
+Template nodes: ["t", text] ["v", x] ["i", name] include, ["io", name] include … ignore missing,
+["m", name] import, ["p", key] python[key].
 -/
 namespace Driver.Jinja
 open Lean Vinegar Vinegar.Jinja Driver
@@ -30,6 +32,7 @@ def nodeFromJson (j : Json) : Except String Node := do
   | "t" => return .text arg
   | "v" => return .var arg
   | "i" => return .incl (splitName arg)
+  | "io" => return .inclOpt (splitName arg)
   | "m" => return .imp (splitName arg)
   | "p" => return .py arg.toList
   | t => throw s!"bad node tag {t}"
